@@ -15,7 +15,130 @@ fn budget(t: Tier) -> u64 {
     }
 }
 
+/// Magnitudes no simulated traffic reaches: the reporter alone, fed snapshots by the harness.
+fn gen_direct(seed: u64) -> Plan {
+    let mut rng = Rng::derive(seed, "c17-direct");
+    let mut plan = Plan::new("C17", "c17.reporter_direct", seed);
+    world_knobs(&mut rng, &mut plan, false);
+    let interval_s = *rng.pick(&[1u64, 2, 5]);
+    let addrs = 1 + rng.below(4) as u8;
+    let n = 2 + rng.below(11);
+    // 32-bit counters: the sum per address over the whole run stays within the type
+    let mut room = vec![[u32::MAX as u64; 8]; addrs as usize];
+    let mut pushes = Vec::new();
+    let mut t = 0u64;
+    for _ in 0..n {
+        t += *rng.pick(&[0u64, 1_000, 300_000, 1_100_000, 2_500_000]);
+        let mut rows = Vec::new();
+        for a in 0..addrs {
+            if rng.chance(1, 3) {
+                continue;
+            }
+            let mut v = [0u64; 8];
+            for i in 0..8 {
+                if i == 6 {
+                    v[i] = *rng.pick(&[0u64, 1, 1488, 1 << 31, (1 << 32) - 1, 1 << 32, (1 << 32) + 1, 3 << 32, 1 << 40, 65_000 * 50_000]);
+                } else {
+                    let want = *rng.pick(&[0u64, 1, 2, 1000, 65_535, 65_536, (1 << 31) - 1, 1 << 31, u32::MAX as u64]);
+                    v[i] = want.min(room[a as usize][i]);
+                    room[a as usize][i] -= v[i];
+                }
+            }
+            rows.push((a, v));
+        }
+        pushes.push((t, rows));
+    }
+    let linger_ms = (interval_s + 3) * 1000;
+    plan.world.horizon_ms = t / 1000 + linger_ms + 2_500;
+    plan.step(1_000, Action::ReporterDirect { interval_s, pushes, linger_ms });
+    plan
+}
+
+fn check_direct(plan: &Plan, out: &RunOut) -> CheckOut {
+    let mut co = CheckOut::default();
+    co.nontrivial = true;
+    check_no_panic(&mut co, "C17", out);
+    let mut want: BTreeMap<IpAddr, [u64; 8]> = BTreeMap::new();
+    let mut big = false;
+    for st in &plan.steps {
+        if let Action::ReporterDirect { pushes, .. } = &st.act {
+            for (_, rows) in pushes {
+                for (a, v) in rows {
+                    let e = want.entry(crate::exec::direct_addr(a.to_owned()).to_owned()).or_insert([0; 8]);
+                    for i in 0..8 {
+                        e[i] += v[i];
+                    }
+                }
+            }
+        }
+    }
+    if out.ctx.direct_refused > 0 {
+        co.violate("C17", "harness", "C17|direct_push_refused".into(), format!("{} snapshot(s) did not fit the queue", out.ctx.direct_refused));
+    }
+    let (csv_sum, files) = csv_sums(&mut co, out);
+    for (ip, w) in &want {
+        if w[6] >= 1 << 32 {
+            big = true;
+        }
+        let got = csv_sum.get(ip).copied().unwrap_or([0; 8]);
+        for i in 0..8 {
+            if got[i] != w[i] {
+                co.violate("C17", "stats_not_conserved", format!("C17|stats_not_conserved|reporter_merge|counter={}", KINDS[i]), format!("address {}: the snapshots handed to the reporter add up to {} = {}, the {} file(s) it persisted say {}", ip, KINDS[i], w[i], files, got[i]));
+            }
+        }
+    }
+    for ip in csv_sum.keys() {
+        if !want.contains_key(ip) {
+            co.violate("C17", "stats_not_conserved", "C17|stats_not_conserved|reporter_merge|unknown_address".into(), format!("the persisted statistics name {}, which no snapshot did", ip));
+        }
+    }
+    if big {
+        co.probe("merged_bytes_beyond_32_bits");
+    }
+    if files >= 2 {
+        co.probe("direct_reporter_wrote_ge_2_files");
+    }
+    co.sample = Some(serde_json::json!({ "scenario": plan.scenario, "seed": plan.seed, "files": files, "addresses": want.len(), "verdict": if co.violations.is_empty() { "ok".to_string() } else { co.violations[0].signature.clone() } }));
+    co
+}
+
+/// Per-address sums over every statistics file in the simulated file system.
+fn csv_sums(co: &mut CheckOut, out: &RunOut) -> (BTreeMap<IpAddr, [u64; 8]>, usize) {
+    let mut csv_sum: BTreeMap<IpAddr, [u64; 8]> = BTreeMap::new();
+    let mut files = 0;
+    for (path, f) in &out.world.vfs {
+        if !path.ends_with(".csv.zst") {
+            continue;
+        }
+        files += 1;
+        let raw = match zstd::decode_all(&f.data[..]) {
+            Ok(r) => r,
+            Err(e) => {
+                co.violate("C17", "stats_file_unreadable", "C17|stats_file_unreadable".into(), format!("{}: {}", path, e));
+                continue;
+            }
+        };
+        let mut rdr = csv::Reader::from_reader(&raw[..]);
+        let headers: Vec<String> = rdr.headers().map(|h| h.iter().map(|s| s.to_string()).collect()).unwrap_or_default();
+        for rec in rdr.records().flatten() {
+            let get = |name: &str| headers.iter().position(|h| h == name).and_then(|i| rec.get(i)).unwrap_or("").to_string();
+            let ip: IpAddr = match get("ip_addr").parse() {
+                Ok(i) => i,
+                Err(_) => continue,
+            };
+            let e = csv_sum.entry(ip).or_insert([0; 8]);
+            for (i, k) in KINDS.iter().enumerate() {
+                e[i] += get(k).parse::<u64>().unwrap_or(0);
+            }
+        }
+    }
+    (csv_sum, files)
+}
+
 fn gen(seed: u64, idx: u64, _tier: Tier) -> Plan {
+    if idx % 12 == 7 {
+        return gen_direct(seed);
+    }
     let mut rng = Rng::derive(seed, "c17");
     let fmode = idx % 3 == 2;
     let mut plan = Plan::new("C17", if fmode { "c17.reporter_csv" } else { "c17.worker_recorders" }, seed);
@@ -159,6 +282,9 @@ fn tap(v: &View, out: &RunOut) -> BTreeMap<IpAddr, [u64; 8]> {
 const KINDS: [&str; 8] = ["rfc_requests", "classic_requests", "invalid_requests", "health_checks", "rfc_responses_sent", "classic_responses_sent", "bytes_sent", "failed_send_attempts"];
 
 fn check(plan: &Plan, out: &RunOut) -> CheckOut {
+    if plan.scenario == "c17.reporter_direct" {
+        return check_direct(plan, out);
+    }
     let mut co = CheckOut::default();
     let v = View::build(out);
     let spec = plan.server.as_ref().unwrap();
@@ -288,34 +414,7 @@ fn check(plan: &Plan, out: &RunOut) -> CheckOut {
         }
     } else {
         // F mode: Σ of the reporter's CSV rows per address = traffic per address
-        let mut csv_sum: BTreeMap<IpAddr, [u64; 8]> = BTreeMap::new();
-        let mut files = 0;
-        for (path, f) in &out.world.vfs {
-            if !path.ends_with(".csv.zst") {
-                continue;
-            }
-            files += 1;
-            let raw = match zstd::decode_all(&f.data[..]) {
-                Ok(r) => r,
-                Err(e) => {
-                    co.violate("C17", "stats_file_unreadable", "C17|stats_file_unreadable".into(), format!("{}: {}", path, e));
-                    continue;
-                }
-            };
-            let mut rdr = csv::Reader::from_reader(&raw[..]);
-            let headers: Vec<String> = rdr.headers().map(|h| h.iter().map(|s| s.to_string()).collect()).unwrap_or_default();
-            for rec in rdr.records().flatten() {
-                let get = |name: &str| headers.iter().position(|h| h == name).and_then(|i| rec.get(i)).unwrap_or("").to_string();
-                let ip: IpAddr = match get("ip_addr").parse() {
-                    Ok(i) => i,
-                    Err(_) => continue,
-                };
-                let e = csv_sum.entry(ip).or_insert([0; 8]);
-                for (i, k) in KINDS.iter().enumerate() {
-                    e[i] += get(k).parse::<u64>().unwrap_or(0);
-                }
-            }
-        }
+        let (csv_sum, files) = csv_sums(&mut co, out);
         if files >= 20 {
             co.probe("reporter_wrote_20_or_more_files");
         }
